@@ -332,6 +332,80 @@ async fn run_generations(addr: SocketAddr, certs: Certs, id: u64, generations: u
     Ok((calls, l.received, l.sent))
 }
 
+
+/// the real `Replier` of the client library (handler with small random delays) serving several real requestors
+/// and clones on separate connections: covers the replier-side echo of `req_id` and routing tag
+async fn run_lib_replier(addr: SocketAddr, certs: Certs, id: u64, seed: u64, calls_per_task: usize) -> std::result::Result<(u64, Vec<String>, u64), String> {
+    let topic = unique_topic("c04r", id);
+    let rc = lib_client(&addr.to_string(), &certs, None).await.map_err(|e| format!("connect: {e}"))?;
+    let mut replier = rc
+        .replier(&topic)
+        .with_request_decoder(StringCodec)
+        .with_reply_encoder(StringCodec)
+        .with_handler(|req: String| async move {
+            // data-dependent delay: replies of different requestors interleave on the replier's stream
+            let d = (req.len() as u64 * 37) % 7;
+            if d > 0 {
+                tokio::time::sleep(Duration::from_millis(d)).await;
+            }
+            Ok::<String, std::convert::Infallible>(format!("re:{}", req))
+        })
+        .open()
+        .await
+        .map_err(|e| format!("open replier: {e}"))?;
+    let listen = tokio::spawn(async move { replier.listen().await });
+    let mut tasks = vec![];
+    let mut task_no = 0u64;
+    for c in 0..3 {
+        let client = lib_client(&addr.to_string(), &certs, None).await.map_err(|e| format!("connect: {e}"))?;
+        for s in 0..2 {
+            let mut rq = client.requestor(&topic).with_request_encoder(StringCodec).with_reply_decoder(StringCodec).with_request_timeout(4000u64).map_err(|e| e.to_string())?.open().await.map_err(|e| format!("open requestor: {e}"))?;
+            let mut ok = false;
+            for n in 0..40 {
+                if let Ok(v) = rq.request(format!("sentinel-{}-{}-{}", c, s, n)).await {
+                    if v.starts_with("re:sentinel") {
+                        ok = true;
+                        break;
+                    }
+                    return Err(format!("VIOLATION wrong-reply: sentinel got {:?}", v));
+                }
+                tokio::time::sleep(Duration::from_millis(50)).await;
+            }
+            if !ok {
+                listen.abort();
+                return Err("precondition not reached: library replier never answered a sentinel".into());
+            }
+            for k in 0..3 {
+                let mut rq2 = rq.clone();
+                task_no += 1;
+                let mut rng = Rng::new(crate::common::mix(seed, task_no));
+                tasks.push(tokio::spawn(async move {
+                    let mut res = vec![];
+                    for i in 0..calls_per_task {
+                        let filler: String = (0..rng.below(30)).map(|_| (b'a' + rng.below(26) as u8) as char).collect();
+                        let p = format!("c{}s{}k{}#{}|{}", c, s, k, i, filler);
+                        let r = tokio::time::timeout(Duration::from_secs(30), rq2.request(p.clone())).await;
+                        res.push((p, r.map(|x| x.map_err(|e| e.to_string())).map_err(|_| "no return within 30 s".to_string())));
+                    }
+                    res
+                }));
+            }
+        }
+    }
+    let (mut ok, mut wrong, mut failed) = (0u64, vec![], 0u64);
+    for t in tasks {
+        for (p, r) in t.await.map_err(|e| format!("harness task: {e}"))? {
+            match r {
+                Ok(Ok(v)) if v == format!("re:{}", p) => ok += 1,
+                Ok(Ok(v)) => wrong.push(format!("request {:?} returned Ok({:?})", p, v)),
+                _ => failed += 1,
+            }
+        }
+    }
+    listen.abort();
+    Ok((ok, wrong, failed))
+}
+
 pub fn run(rep: &mut StageReport, tier: &str, seed: u64) {
     let thorough = tier == "thorough";
     let rt = runtime(8);
@@ -363,6 +437,8 @@ pub fn run(rep: &mut StageReport, tier: &str, seed: u64) {
     let mut prompt_timeouts = 0u64;
     let mut prompt_calls = 0u64;
     let mut by_mode: HashMap<&'static str, u64> = HashMap::new();
+    let mut lib_replier_result: Option<(u64, Vec<String>, u64)> = None;
+    let mut lib_replier_inconclusive: Option<String> = None;
     let mut clones_result: Option<(u64, Vec<String>, Vec<String>)> = None;
     let mut clones_inconclusive: Option<String> = None;
     let results = rt.block_on(async {
@@ -387,6 +463,14 @@ pub fn run(rep: &mut StageReport, tier: &str, seed: u64) {
                 Ok(Ok((ok, wrong, failed))) => clones_result = Some((ok, wrong, failed)),
                 Ok(Err(e)) => clones_inconclusive = Some(e),
                 Err(_) => clones_inconclusive = Some("watchdog: clones scenario did not finish in 400 s".into()),
+            }
+        }
+        {
+            let calls = if thorough { 150 } else { 25 };
+            match tokio::time::timeout(Duration::from_secs(500), run_lib_replier(server.addr, certs.clone(), 800, seed, calls)).await {
+                Ok(Ok(x)) => lib_replier_result = Some(x),
+                Ok(Err(e)) => lib_replier_inconclusive = Some(e),
+                Err(_) => lib_replier_inconclusive = Some("watchdog: library-replier scenario did not finish in 500 s".into()),
             }
         }
         for g in 0..n_gen_scenarios {
@@ -494,6 +578,33 @@ pub fn run(rep: &mut StageReport, tier: &str, seed: u64) {
         }
         if let Some(sc) = sc {
             rep.sample(json!({"scenario": {"connections": sc.n_connections, "streams_per_connection": sc.streams_per_connection, "clones_per_stream": sc.clones_per_stream, "timeout_ms": sc.timeout_ms, "compression": sc.compression}, "history_excerpt": sample_hist}));
+        }
+    }
+    match lib_replier_inconclusive {
+        Some(e) if e.starts_with("VIOLATION wrong-reply: ") => rep.violation(Violation { signature: "C04/reqrep-client/wrong-reply/library-replier".into(), detail: e, replay: String::new() }),
+        Some(e) => rep.inconclusive(&e),
+        None => {}
+    }
+    if let Some((ok, wrong, failed)) = lib_replier_result {
+        rep.evaluations += ok + wrong.len() as u64 + failed;
+        for i in 0..ok {
+            rep.distinct.insert(crate::common::mix(0xC104E6, i));
+        }
+        rep.count("calls_against_library_replier/own_reply", ok);
+        rep.count("calls_against_library_replier/failed(counted)", failed);
+        if let Some(w) = wrong.first() {
+            rep.violation(Violation {
+                signature: "C04/reqrep-client/wrong-reply/library-replier".into(),
+                detail: format!("{} concurrent calls served by the client library's Replier returned Ok with another call's reply, e.g. {}", wrong.len(), w),
+                replay: String::new(),
+            });
+        }
+        if failed * 3 > ok + failed {
+            rep.violation(Violation {
+                signature: "C04/reqrep-client/answered-requests-time-out/library-replier".into(),
+                detail: format!("{} of {} calls served by the client library's Replier (which answers within 7 ms) failed", failed, ok + failed),
+                replay: String::new(),
+            });
         }
     }
     if let Some(why) = clones_inconclusive {
